@@ -327,7 +327,6 @@ Proof.
   apply andb_true_iff in Hguard as [Hguard Hlenb]. apply andb_true_iff in Hguard as [Hguard Hasc].
   apply andb_true_iff in Hguard as [Hguard Hpix]. apply andb_true_iff in Hguard as [Hguard Hh2].
   apply andb_true_iff in Hguard as [Hguard Hw2]. apply andb_true_iff in Hguard as [Hw1 Hh1].
-  apply negb_true_iff in Hasc.
   apply Z.ltb_lt in Hw1, Hh1. apply Z.leb_le in Hw2, Hh2, Hpix.
   set (es := sort_lex d).
   assert (Hperm : Permutation es d) by apply sort_lex_perm.
@@ -373,20 +372,55 @@ Proof.
   cbn [orb].
   replace ((max_img_pixels <? img_int sd k_W k_Width * img_int sd k_H k_Height)%Z) with false
     by (symmetry; apply Z.ltb_ge; exact Hpix).
-  (* the byte after ID, no ASCII filter *)
-  subst Y. change (is_space cLF) with true. cbn iota. rewrite Hasc.
-  (* the data, EI and the byte after it *)
+  (* the byte after ID; for an ASCII filter all further white space *)
+  subst Y. change (is_space cLF) with true. cbn iota.
   replace (is_space cLF) with true by reflexivity. cbn iota.
-  destruct (0 <? img_int sd k_L k_Length)%Z eqn:El.
-  - apply andb_true_iff in Hlenb as [He Hmax]. apply Z.eqb_eq in He. apply Z.leb_le in Hmax.
-    replace ((Z.of_N max_img_bytes <? img_int sd k_L k_Length)%Z) with false by (symmetry; apply Z.ltb_ge; exact Hmax).
-    rewrite He, Nat2Z.id, take_n_app. rewrite skip_ws_lf. rewrite skip_ws_stop by reflexivity.
-    cbn [n_EI starts_with]. change (69 =? 69) with true. change (73 =? 73) with true. cbn [andb drop].
-    change (is_regular cLF) with false. cbn iota. reflexivity.
-  - apply andb_true_iff in Hlenb as [Hei Hmax]. apply N.ltb_lt in Hmax.
-    rewrite ei_loop_ok; [ | exact Hei | rewrite blen_nil; lia].
-    cbn [n_EI starts_with rev app]. change (69 =? 69) with true. change (73 =? 73) with true. cbn [andb drop].
-    change (is_regular cLF) with false. cbn iota. reflexivity.
+  set (T := cLF :: 69 :: 73 :: cLF :: rest).
+  destruct (img_filter_ascii sd) eqn:Ea; cbn [negb orb] in Hasc.
+  - destruct data as [|b0 data'].
+    + (* ASCII filter, no data: the scanner stops at EI with the EOL as previous byte *)
+      cbn [app]. subst T.
+      replace (skip_sp_last 0 (cLF :: 69 :: 73 :: cLF :: rest)) with (69 :: 73 :: cLF :: rest, cLF) by reflexivity.
+      cbv beta iota.
+      destruct (0 <? img_int sd k_L k_Length)%Z eqn:El.
+      * apply andb_true_iff in Hlenb as [He _]. apply Z.eqb_eq in He. apply Z.ltb_lt in El.
+        cbn [length] in He. lia.
+      * apply andb_true_iff in Hlenb as [_ Hmax]. apply N.ltb_lt in Hmax.
+        rewrite ei_loop_step.
+        destruct (max_img_bytes <=? blen []) eqn:E0;
+          [apply N.leb_le in E0; unfold blen in *; cbn [length] in *; lia|].
+        change ((cLF =? cCR) || (cLF =? cLF)) with true.
+        change (check_ei (69 :: 73 :: cLF :: rest)) with true. cbn [andb tl rev].
+        cbn [n_EI starts_with]. change (69 =? 69) with true. change (73 =? 73) with true. cbn [andb drop].
+        change (is_regular cLF) with false. cbn iota. reflexivity.
+    + (* ASCII filter, data starting with a byte that is not white space *)
+      cbn [ascii_data_ok] in Hasc. apply negb_true_iff in Hasc.
+      replace (skip_sp_last 0 ((b0 :: data') ++ T)) with ((b0 :: data') ++ T, 0)
+        by (cbn [app skip_sp_last]; rewrite Hasc; reflexivity).
+      cbv beta iota. change ((b0 :: data') ++ T) with (b0 :: (data' ++ T)) at 1. cbv iota.
+      set (data := b0 :: data') in *. subst T.
+      destruct (0 <? img_int sd k_L k_Length)%Z eqn:El.
+      * apply andb_true_iff in Hlenb as [He Hmax]. apply Z.eqb_eq in He. apply Z.leb_le in Hmax.
+        replace ((Z.of_N max_img_bytes <? img_int sd k_L k_Length)%Z) with false by (symmetry; apply Z.ltb_ge; exact Hmax).
+        rewrite He, Nat2Z.id, take_n_app. rewrite skip_ws_lf. rewrite skip_ws_stop by reflexivity.
+        cbn [n_EI starts_with]. change (69 =? 69) with true. change (73 =? 73) with true. cbn [andb drop].
+        change (is_regular cLF) with false. cbn iota. reflexivity.
+      * apply andb_true_iff in Hlenb as [Hei Hmax]. apply N.ltb_lt in Hmax.
+        rewrite ei_loop_ok; [ | exact Hei | rewrite blen_nil; lia].
+        cbn [n_EI starts_with rev app]. change (69 =? 69) with true. change (73 =? 73) with true. cbn [andb drop].
+        change (is_regular cLF) with false. cbn iota. reflexivity.
+  - (* no ASCII filter *)
+    subst T.
+    destruct (0 <? img_int sd k_L k_Length)%Z eqn:El.
+    + apply andb_true_iff in Hlenb as [He Hmax]. apply Z.eqb_eq in He. apply Z.leb_le in Hmax.
+      replace ((Z.of_N max_img_bytes <? img_int sd k_L k_Length)%Z) with false by (symmetry; apply Z.ltb_ge; exact Hmax).
+      rewrite He, Nat2Z.id, take_n_app. rewrite skip_ws_lf. rewrite skip_ws_stop by reflexivity.
+      cbn [n_EI starts_with]. change (69 =? 69) with true. change (73 =? 73) with true. cbn [andb drop].
+      change (is_regular cLF) with false. cbn iota. reflexivity.
+    + apply andb_true_iff in Hlenb as [Hei Hmax]. apply N.ltb_lt in Hmax.
+      rewrite ei_loop_ok; [ | exact Hei | rewrite blen_nil; lia].
+      cbn [n_EI starts_with rev app]. change (69 =? 69) with true. change (73 =? 73) with true. cbn [andb drop].
+      change (is_regular cLF) with false. cbn iota. reflexivity.
 Qed.
 
 
